@@ -10,6 +10,7 @@ import (
 
 	"github.com/evolbioinfo/goalign/align"
 	"github.com/evolbioinfo/goalign/io/countprofile"
+	"github.com/evolbioinfo/goalign/io/fasta"
 	"github.com/evolbioinfo/goalign/verifrt"
 )
 
@@ -26,6 +27,7 @@ type C14Case struct {
 	Prof     []string  `json:"prof,omitempty"` // rows of another alignment of the same length: the count profile to compare with
 	MapSeeds [3]uint64 `json:"map_seeds"`
 	Ref      int       `json:"ref"` // reference row for the reference-relative counters
+	Cli      int       `json:"cli,omitempty"`       // > 0: that many of the statistics commands are also executed through the command tree (which ones: drawn from the case)
 	FromFile bool      `json:"from_file,omitempty"` // the alignment's own count profile also goes through a profile file (io/countprofile.FromFile)
 }
 
@@ -36,7 +38,7 @@ func init() { Register(c14{}) }
 func (c14) ID() string       { return "C14" }
 func (c14) New() interface{} { return &C14Case{} }
 func (c14) Rule() string {
-	return "each run: a nucleotide or protein alignment of 1-7 rows x 1-10 columns whose columns are drawn from small palettes (2-3 letters, so that ties for the most frequent character are the rule), with all-gap, all-N/X, gap+N and single-kind columns and mixed case in a quarter of the runs; ~45 statistics are evaluated under map-iteration seeds a, a again, b and c (Go's map order is behind the seam spliced by seamgen); site indices -1, L, L+1 are tried on every function that takes one; a decoy alignment of the same names and shape is evaluated before the first evaluation and between the first and the second; count profiles that do not cover the alignment must be refused. Distinct = distinct alignment content; non-trivial = at least 2 rows and at least one column with a tie for the most frequent admissible character."
+	return "each run: a nucleotide or protein alignment of 1-7 rows x 1-10 columns whose columns are drawn from small palettes (2-3 letters, so that ties for the most frequent character are the rule), with all-gap, all-N/X, gap+N and single-kind columns and mixed case in a quarter of the runs; ~45 statistics are evaluated under map-iteration seeds a, a again, b and c (Go's map order is behind the seam spliced by seamgen); site indices -1, L, L+1 are tried on every function that takes one; a decoy alignment of the same names and shape is evaluated before the first evaluation and between the first and the second; count profiles that do not cover the alignment must be refused. Distinct = distinct alignment content; non-trivial = at least 2 rows and at least one column with a tie for the most frequent admissible character. One run in 170 has 99-257 columns; there and in one run in ten of the others the alignment's own count profile also goes through a profile file. One run in twelve ends with 1-3 of 24 statistics commands (stats maxchar, consensus, compute entropy, stats gaps / mutations / mutations list / alleles with their flags) executed through the command tree in the same process: what they print must be the values of the library calls in the documented layout."
 }
 
 func (c14) Gen(rs uint64, tier string, race bool) interface{} {
@@ -175,6 +177,9 @@ func (c14) Gen(rs uint64, tier string, race bool) interface{} {
 		a.Seqs[0] = string(s)
 	}
 	c.MapSeeds = [3]uint64{r.U64(), r.U64(), r.U64()}
+	if !tall && !wide && r.Chance(0.08) {
+		c.Cli = r.Range(1, 3)
+	}
 	c.Ref = r.Intn(n)
 	// a profile from other rows over the same columns (some characters of the alignment are new to it)
 	for i := r.Range(1, 4); i > 0; i-- {
@@ -513,6 +518,11 @@ func (c14) Run(ctx *Ctx, ci interface{}) (o Outcome) {
 	before := snapshotAlign(al)
 	n, L := len(a.Names), len(a.Seqs[0])
 	desc := func() string { return "alignment:\n" + a.String() }
+	defer func() {
+		if c.Cli > 0 && o.V == nil {
+			c.runCLI(ctx, &o, al)
+		}
+	}()
 	defer verifrt.SetMapSeed(0, false)
 
 	guarded := func(what string, f func()) bool {
@@ -1411,4 +1421,161 @@ func (c14) Shrink(ci interface{}) []interface{} {
 		}
 	}
 	return out
+}
+
+// runCLI executes some of the statistics commands through the command tree in this process and holds what they
+// print to the values the library calls return for the same alignment (which the rest of the run holds to their
+// definitions), in the layout the commands document.
+func (c *C14Case) runCLI(ctx *Ctx, o *Outcome, al align.Alignment) {
+	type job struct {
+		args string
+		want func() (string, bool)
+	}
+	b2 := func(k int) (bool, bool) { return k&1 != 0, k&2 != 0 }
+	flags := func(ig, in bool) string {
+		s := ""
+		if ig {
+			s += " --ignore-gaps"
+		}
+		if in {
+			s += " --ignore-n"
+		}
+		return s
+	}
+	refName := c.Aln.Names[min(max(c.Ref, 0), len(c.Aln.Names)-1)]
+	refSeq, _ := al.GetSequence(refName)
+	var jobs []job
+	for k := 0; k < 4; k++ {
+		ig, in := b2(k)
+		jobs = append(jobs, job{"stats maxchar" + flags(ig, in), func() (string, bool) {
+			ch, occ, _ := al.MaxCharStats(ig, in)
+			var sb strings.Builder
+			sb.WriteString("site\tchar\tnb\n")
+			for i := range ch {
+				fmt.Fprintf(&sb, "%d\t%c\t%d\n", i, ch[i], occ[i])
+			}
+			return sb.String(), true
+		}})
+		jobs = append(jobs, job{"consensus" + flags(ig, in), func() (string, bool) {
+			return fasta.WriteAlignment(al.Consensus(ig, in)), true
+		}})
+	}
+	for _, rg := range []bool{false, true} {
+		a := "compute entropy"
+		if rg {
+			a += " --remove-gaps"
+		}
+		jobs = append(jobs, job{a, func() (string, bool) {
+			var sb strings.Builder
+			sb.WriteString("Alignment\tSite\tEntropy\n")
+			for i := 0; i < al.Length(); i++ {
+				e, err := al.Entropy(i, rg)
+				if err != nil {
+					return "", false
+				}
+				fmt.Fprintf(&sb, "0\t%d\t%.3f\n", i, e)
+			}
+			return sb.String(), true
+		}})
+	}
+	perSeq := func(f func(i int, q align.Sequence) int) func() (string, bool) {
+		return func() (string, bool) {
+			var sb strings.Builder
+			for i, q := range al.Sequences() {
+				fmt.Fprintf(&sb, "%s\t%d\n", q.Name(), f(i, q))
+			}
+			return sb.String(), true
+		}
+	}
+	jobs = append(jobs,
+		job{"stats gaps", perSeq(func(_ int, q align.Sequence) int { return q.NumGaps() })},
+		job{"stats gaps --from-start", perSeq(func(_ int, q align.Sequence) int { return q.NumGapsFromStart() })},
+		job{"stats gaps --from-end", perSeq(func(_ int, q align.Sequence) int { return q.NumGapsFromEnd() })},
+		job{"stats gaps --openning", perSeq(func(_ int, q align.Sequence) int { return q.NumGapsOpenning() })},
+		job{"stats gaps --unique", func() (string, bool) {
+			u, _, _, err := al.NumGapsUniquePerSequence(nil)
+			if err != nil {
+				return "", false
+			}
+			return perSeq(func(i int, _ align.Sequence) int { return u[i] })()
+		}},
+		job{"stats mutations --unique", func() (string, bool) {
+			u, _, _, err := al.NumMutationsUniquePerSequence(nil)
+			if err != nil {
+				return "", false
+			}
+			return perSeq(func(i int, _ align.Sequence) int { return u[i] })()
+		}},
+		job{"stats mutations --ref-sequence " + refName, func() (string, bool) {
+			var sb strings.Builder
+			for _, q := range al.Sequences() {
+				k, err := q.NumMutationsComparedToReferenceSequence(al.Alphabet(), align.NewSequence("ref", []uint8(refSeq), ""))
+				if err != nil {
+					return "", false
+				}
+				fmt.Fprintf(&sb, "%s\t%d\n", q.Name(), k)
+			}
+			return sb.String(), true
+		}},
+		job{"stats mutations list --ref-sequence " + refName, func() (string, bool) {
+			var sb strings.Builder
+			for _, q := range al.Sequences() {
+				if q.Name() == refName {
+					continue
+				}
+				ms, err := q.ListMutationsComparedToReferenceSequence(al.Alphabet(), align.NewSequence("ref", []uint8(refSeq), ""), false)
+				if err != nil {
+					return "", false
+				}
+				sb.WriteString(q.Name())
+				for i, m := range ms {
+					sep := ","
+					if i == 0 {
+						sep = "\t"
+					}
+					fmt.Fprintf(&sb, "%s%c%d%s", sep, m.Ref, m.Pos, string(m.Alt))
+				}
+				sb.WriteString("\n")
+			}
+			return sb.String(), true
+		}},
+		job{"stats alleles", func() (string, bool) { return fmt.Sprintln(al.AvgAllelesPerSite()), true }},
+	)
+	pr := NewRand(Mix(c.MapSeeds[0], "cli-jobs"))
+	files := map[string]string{"in.fa": fastaOf(c.Aln.Names, c.Aln.Seqs)}
+	for k := 0; k < c.Cli; k++ {
+		j := jobs[pr.Intn(len(jobs))]
+		var want string
+		ok := false
+		func() {
+			defer func() { recover() }() // a crash of the library call is the business of the run itself
+			want, ok = j.want()
+		}()
+		if !ok {
+			continue
+		}
+		args := append(strings.Fields(j.args), "-i", "in.fa")
+		res := runInProc(ctx, args, files, c.MapSeeds[1], 1700000000e9)
+		o.Add("command_line_executions", 1)
+		what := "goalign " + strings.Join(args, " ")
+		for _, p := range res.sr.Panics {
+			if p.Exit < 0 {
+				o.Fail("crash:cli:"+j.args, "%s: goroutine g%d panicked: %s\n%s\n%s", what, p.Gid, p.Panic, c.Aln.String(), p.Stack)
+				return
+			}
+		}
+		if res.sr.Deadlock || res.sr.Budget {
+			o.Fail("hang:cli:"+j.args, "%s does not return: %s", what, res.sr.Stacks)
+			return
+		}
+		if res.err != nil || res.exit >= 0 {
+			o.Fail("cli-differs:error:"+funcOfKey(j.args), "%s fails (%v, exit %d); the library calls it is made of succeed\nalignment:\n%s", what, res.err, res.exit, c.Aln.String())
+			return
+		}
+		if got := string(res.files["stdout.txt"]); got != want {
+			o.Fail("cli-differs:"+strings.Join(strings.Fields(j.args)[:2], "-"), "%s prints\n%s\nthe library calls it documents give\n%s\nalignment:\n%s", what, clip(got, 600), clip(want, 600), c.Aln.String())
+			return
+		}
+		o.Add("command_line_output_equals_library_values", 1)
+	}
 }
